@@ -717,6 +717,34 @@ def twin_slices(ctx):
 
 # --------------------------------------------------------------------------- C14 ASM-DISPATCH
 
+def _eval_count(e, count):
+    """Evaluate an integer expression whose only variable is a parameter (the bit count)."""
+    if not isinstance(e, tuple):
+        return None
+    k = e[0]
+    if k == 'const' and isinstance(e[2], int):
+        return e[2]
+    if k == 'param':
+        return count if e[1] >= 2 else None
+    if k == 'cast':
+        return _eval_count(e[-1], count)
+    if k == 'field' and isinstance(e[1], tuple) and e[1][0] == 'bin' and e[1][1].endswith('WithOverflow') and str(e[2]) == '0':
+        return _eval_count(('bin', e[1][1][:-len('WithOverflow')], e[1][2], e[1][3]), count)
+    if k == 'bin':
+        a, b = _eval_count(e[2], count), _eval_count(e[3], count)
+        if a is None or b is None:
+            return None
+        op = e[1]
+        if op == 'Add': return a + b
+        if op == 'Sub': return a - b
+        if op == 'Mul': return a * b
+        if op == 'Div': return a // b if b else None
+        if op == 'Shr': return a >> b
+        if op == 'Shl': return a << b
+        if op == 'BitAnd': return a & b
+    return None
+
+
 @rule('ASM-DISPATCH', ['C14'], configs=('def',), floor=1, thorough_configs=('nostd-opt',))
 def asm_dispatch(ctx):
     """A hand-written assembly path that clamps its loads (it re-reads the last byte when the input runs out)
@@ -754,8 +782,33 @@ def asm_dispatch(ctx):
                 nc = norm_cmp(cnd, True) if cnd[0] in ('bin', 'un') else None
                 if has_len and has_pos and has_cnt and nc and nc[0] in ('Lt', 'Le'):
                     ok = cnd
+            short = None
             if ok is not None:
-                ctx.ok(key, f.loc(bi), 'taken only when %s' % expr_str(ok)[:120])
+                # is the bound large enough? `count` direct bits consume at most 1 + ceil((count - 1) / 8) bytes: the
+                # range is renormalised (one byte) when it drops below 2^24, at worst before the first bit and then again
+                # after one and after every further eight halvings.
+                nc = norm_cmp(ok, True)
+                lhs_has_len = any(x[0] == 'len' or (x[0] == 'call' and x[1].split('::')[-1] == 'len') for x in expr_walk(nc[1]))
+                if lhs_has_len:
+                    short = 'the comparison bounds the bytes left from above, not from below'
+                else:
+                    for cntv in range(1, 33):
+                        bv = _eval_count(nc[1], cntv)
+                        if bv is None:
+                            short = 'the bound %s cannot be evaluated for count = %d (not decided, fail closed)' % (expr_str(nc[1])[:60], cntv)
+                            break
+                        min_left = bv if nc[0] == 'Le' else bv + 1
+                        need = 1 + (cntv - 1 + 7) // 8
+                        if min_left < need:
+                            short = ('for count = %d the path is entered with %d byte(s) left, but %d direct bits can consume %d bytes '
+                                     '(1 + ceil((count - 1) / 8))' % (cntv, min_left, cntv, need))
+                            break
+            if ok is not None and short is None:
+                ctx.ok(key, f.loc(bi), 'taken only when %s; the bound covers 1 + ceil((count - 1) / 8) bytes for every count in 1..=32' % expr_str(ok)[:120])
+            elif ok is not None:
+                ctx.violation(key, f.loc(bi), 'the assembly path %s is guarded by %s, which is too weak: %s; at the end of a truncated chunk it re-reads the '
+                              'last byte where the portable path reads zero, and the builds decode the same corrupt stream differently'
+                              % (g.key, expr_str(ok)[:100], short))
             else:
                 ctx.violation(key, f.loc(bi), 'the assembly path %s is entered without checking that the bytes it can consume are left in '
                               'the buffer: at the end of a truncated chunk it re-reads the last byte and clamps the position, the '
